@@ -1,3 +1,3 @@
 (* C14 - hash routing. Statements only. *)
 From Coq Require Import List NArith ZArith.
-From TarsV Require Import Base.Hex Select.Selectors.
+From TarsV Require Import Base.Hex Select.Selectors Select.Hist.
